@@ -414,73 +414,233 @@ Fixpoint mrun (s : state) (l : list op) : option state :=
 (* ~Variant() of every variable *)
 Definition destroy_all (s : state) : option heap := release_all (vars s) (hp s).
 
-(* ---- the const observers of the code, on the representation --------------------------------
-   getType and the to* accessors switch on the type tag and read the inline scalar or the String
-   payload; they never look inside a container.  [shallow] is exactly what they read. *)
-Definition shallow (H : heap) (h : handle) : value :=
+(* ---- the const observers of the code, transcribed from Variant.hpp --------------------------
+   getType, isNull, toBool/toInt/toUInt/toInt64/toUInt64/toDouble/toString() const and operator==.
+   Nothing below uses the coercion functions of VariantSpec (vtype, to_*, eq_scalar_lhs, veq): the
+   Model reads the representation the way the code does - `data->type`, then the member of the
+   union `data->data` that the case names, or the String behind `data + 1` - and applies the C
+   conversion the `return` statement performs.  What IS shared with the Spec are the reference
+   functions of other components and of libc, which are trusted (correspondence only): glibc
+   strtol/strtoul/strtod (VariantSpec.strtol, strtoul, parse_dbl), printf %d %u %lld %llu %f
+   (dec_Z, print_f), String::toBool (str_to_bool), the binary64 rounding of an integer (dbl_of_Z),
+   and the exact dyadic representation of doubles (dnorm, dbl_trunc). *)
+
+(* Variant::Type (Variant.hpp:13-26), in declaration order *)
+Definition T_null : Z := 0.
+Definition T_bool : Z := 1.
+Definition T_double : Z := 2.
+Definition T_int : Z := 3.
+Definition T_uint : Z := 4.
+Definition T_int64 : Z := 5.
+Definition T_uint64 : Z := 6.
+Definition T_map : Z := 7.
+Definition T_list : Z := 8.
+Definition T_array : Z := 9.
+Definition T_string : Z := 10.
+
+(* `data->type`: the tag of the inline descriptor / of the shared null descriptor / of the heap block *)
+Definition m_tag (H : heap) (h : handle) : Z :=
   match h with
-  | HS s => VS s
+  | HS SNull => T_null
+  | HS (SBool _) => T_bool
+  | HS (SDbl _ _) => T_double
+  | HS (SInt _) => T_int
+  | HS (SUInt _) => T_uint
+  | HS (SI64 _) => T_int64
+  | HS (SU64 _) => T_uint64
   | HB b => match lookup H b with
-            | Some (PStr s) => VStr s
-            | Some (PNode k _ _) => VNode k [] []
-            | None => VNull
+            | Some (PStr _) => T_string
+            | Some (PNode KMap _ _) => T_map
+            | Some (PNode KList _ _) => T_list
+            | Some (PNode KArray _ _) => T_array
+            | None => -1                                  (* handle to a released block: no tag to read *)
             end
   end.
 
-Definition m_type (H : heap) (h : handle) : Z := vtype (shallow H h).
-Definition m_to_bool (H : heap) (h : handle) : bool := to_bool (shallow H h).
-Definition m_to_int (H : heap) (h : handle) : option Z := to_int (shallow H h).
-Definition m_to_uint (H : heap) (h : handle) : option Z := to_uint (shallow H h).
-Definition m_to_i64 (H : heap) (h : handle) : option Z := to_i64 (shallow H h).
-Definition m_to_u64 (H : heap) (h : handle) : option Z := to_u64 (shallow H h).
-Definition m_to_dbl (H : heap) (h : handle) : Z * Z := to_dbl (shallow H h).
-Definition m_to_str (H : heap) (h : handle) : bytes := to_str (shallow H h).
+(* the members of `union Data::data`; a member that was not the one last written is never read by
+   the code (every read is guarded by the tag) - the model gives it the value 0 *)
+Definition u_bool (h : handle) : bool := match h with HS (SBool b) => b | _ => false end.
+Definition u_dbl (h : handle) : Z * Z := match h with HS (SDbl m e) => (m, e) | _ => (0%Z, 0%Z) end.
+Definition u_int (h : handle) : Z := match h with HS (SInt z) => z | _ => 0%Z end.
+Definition u_uint (h : handle) : Z := match h with HS (SUInt z) => z | _ => 0%Z end.
+Definition u_i64 (h : handle) : Z := match h with HS (SI64 z) => z | _ => 0%Z end.
+Definition u_u64 (h : handle) : Z := match h with HS (SU64 z) => z | _ => 0%Z end.
+(* the String stored behind the descriptor, `data + 1` *)
+Definition u_str (H : heap) (h : handle) : bytes :=
+  match h with HB b => match lookup H b with Some (PStr s) => s | _ => [] end | HS _ => [] end.
 
-(* Variant::operator== on the representation: the left operand's tag decides; containers are
-   compared element by element (HashMap/List/Array operator==, keys first for maps), through the
-   handles, whatever blocks they happen to share *)
+(* ---- the C conversions ([conv.integral], [conv.fpint], [conv.bool]; x86-64 LP64) ---- *)
+Inductive ity := I32 | U32 | I64 | U64.
+
+(* integer -> integer: the value modulo 2^N, read in the destination's signedness *)
+Definition c_int (t : ity) (z : Z) : Z :=
+  match t with I32 => sx32 z | U32 => w32 z | I64 => sx64 z | U64 => w64 z end.
+
+Definition ity_lo (t : ity) : Z :=
+  match t with I32 => (- 2147483648)%Z | I64 => (- 9223372036854775808)%Z | U32 | U64 => 0%Z end.
+Definition ity_hi (t : ity) : Z :=     (* exclusive *)
+  match t with I32 => 2147483648%Z | U32 => 4294967296%Z | I64 => 9223372036854775808%Z | U64 => 18446744073709551616%Z end.
+
+(* double -> integer: truncation toward zero; undefined (None) when the truncated value is not
+   representable in the destination type *)
+Definition c_dbl_int (t : ity) (d : Z * Z) : option Z :=
+  let z := dbl_trunc (fst d) (snd d) in
+  if (ity_lo t <=? z)%Z && (z <? ity_hi t)%Z then Some z else None.
+
+(* `b ? 1 : 0` (and bool -> int promotion) *)
+Definition c_bool_int (b : bool) : Z := if b then 1%Z else 0%Z.
+(* `x != 0` *)
+Definition c_nonzero (z : Z) : bool := negb (z =? 0)%Z.
+
+(* (double)int / (double)uint: 32 bits fit the 53 bit significand - exact;
+   (double)int64 / (double)uint64: round to nearest even *)
+Definition c_int32_dbl (z : Z) : Z * Z := dnorm z 0.
+Definition c_int64_dbl (z : Z) : Z * Z := dbl_of_Z z.
+
+(* String::toInt = atoi = (int)strtol(s, 0, 10); toUInt = (uint)strtoul(s, 0, 10); toInt64 = atoll =
+   strtoll(s, 0, 10); toUInt64 = strtoull(s, 0, 10) (long = long long = 64 bit); toDouble = atof = strtod *)
+Definition s_to_int (s : bytes) : Z := c_int I32 (strtol s).
+Definition s_to_uint (s : bytes) : Z := c_int U32 (strtoul s).
+Definition s_to_i64 (s : bytes) : Z := strtol s.
+Definition s_to_u64 (s : bytes) : Z := strtoul s.
+Definition s_to_dbl (s : bytes) : Z * Z := parse_dbl s.
+(* String::fromBool / fromInt "%d" / fromUInt "%u" / fromInt64 "%lld" / fromUInt64 "%llu" / fromDouble "%f" *)
+Definition s_from_bool (b : bool) : bytes := if b then str_true else str_false.
+Definition s_from_int (z : Z) : bytes := dec_Z z.
+Definition s_from_dbl (d : Z * Z) : bytes := print_f (fst d) (snd d).
+
+(* the switch of the accessors: cases in the order of the source (bool, double, int, uint, int64,
+   uint64, string, default) *)
+Definition m_type (H : heap) (h : handle) : Z := m_tag H h.                       (* getType() *)
+Definition m_is_null (H : heap) (h : handle) : bool := (m_tag H h =? T_null)%Z.   (* isNull() *)
+
+Definition m_to_bool (H : heap) (h : handle) : bool :=                            (* Variant.hpp:130-144 *)
+  let t := m_tag H h in
+  if (t =? T_bool)%Z then u_bool h
+  else if (t =? T_double)%Z then negb (fst (u_dbl h) =? 0)%Z                      (* doubleData != 0. *)
+  else if (t =? T_int)%Z then c_nonzero (u_int h)
+  else if (t =? T_uint)%Z then c_nonzero (u_uint h)
+  else if (t =? T_int64)%Z then c_nonzero (u_i64 h)
+  else if (t =? T_uint64)%Z then c_nonzero (u_u64 h)
+  else if (t =? T_string)%Z then str_to_bool (u_str H h)
+  else false.
+
+Definition m_to_dbl (H : heap) (h : handle) : Z * Z :=                            (* :159-173 *)
+  let t := m_tag H h in
+  if (t =? T_bool)%Z then (c_bool_int (u_bool h), 0%Z)                            (* boolData ? 1. : 0. *)
+  else if (t =? T_double)%Z then u_dbl h
+  else if (t =? T_int)%Z then c_int32_dbl (u_int h)
+  else if (t =? T_uint)%Z then c_int32_dbl (u_uint h)
+  else if (t =? T_int64)%Z then c_int64_dbl (u_i64 h)
+  else if (t =? T_uint64)%Z then c_int64_dbl (u_u64 h)
+  else if (t =? T_string)%Z then s_to_dbl (u_str H h)
+  else (0%Z, 0%Z).
+
+Definition m_to_int (H : heap) (h : handle) : option Z :=                         (* :188-202 *)
+  let t := m_tag H h in
+  if (t =? T_bool)%Z then Some (c_bool_int (u_bool h))
+  else if (t =? T_double)%Z then c_dbl_int I32 (u_dbl h)                          (* (int)doubleData *)
+  else if (t =? T_int)%Z then Some (u_int h)
+  else if (t =? T_uint)%Z then Some (c_int I32 (u_uint h))                        (* (int)uintData *)
+  else if (t =? T_int64)%Z then Some (c_int I32 (u_i64 h))
+  else if (t =? T_uint64)%Z then Some (c_int I32 (u_u64 h))
+  else if (t =? T_string)%Z then Some (s_to_int (u_str H h))
+  else Some 0%Z.
+
+Definition m_to_uint (H : heap) (h : handle) : option Z :=                        (* :217-231 *)
+  let t := m_tag H h in
+  if (t =? T_bool)%Z then Some (c_bool_int (u_bool h))
+  else if (t =? T_double)%Z then c_dbl_int U32 (u_dbl h)
+  else if (t =? T_int)%Z then Some (c_int U32 (u_int h))
+  else if (t =? T_uint)%Z then Some (u_uint h)
+  else if (t =? T_int64)%Z then Some (c_int U32 (u_i64 h))
+  else if (t =? T_uint64)%Z then Some (c_int U32 (u_u64 h))
+  else if (t =? T_string)%Z then Some (s_to_uint (u_str H h))
+  else Some 0%Z.
+
+Definition m_to_i64 (H : heap) (h : handle) : option Z :=                         (* :246-260 *)
+  let t := m_tag H h in
+  if (t =? T_bool)%Z then Some (c_bool_int (u_bool h))
+  else if (t =? T_double)%Z then c_dbl_int I64 (u_dbl h)
+  else if (t =? T_int)%Z then Some (c_int I64 (u_int h))
+  else if (t =? T_uint)%Z then Some (c_int I64 (u_uint h))
+  else if (t =? T_int64)%Z then Some (u_i64 h)
+  else if (t =? T_uint64)%Z then Some (c_int I64 (u_u64 h))
+  else if (t =? T_string)%Z then Some (s_to_i64 (u_str H h))
+  else Some 0%Z.
+
+Definition m_to_u64 (H : heap) (h : handle) : option Z :=                         (* :275-289 *)
+  let t := m_tag H h in
+  if (t =? T_bool)%Z then Some (c_bool_int (u_bool h))
+  else if (t =? T_double)%Z then c_dbl_int U64 (u_dbl h)
+  else if (t =? T_int)%Z then Some (c_int U64 (u_int h))                          (* sign-extends, then wraps *)
+  else if (t =? T_uint)%Z then Some (c_int U64 (u_uint h))
+  else if (t =? T_int64)%Z then Some (c_int U64 (u_i64 h))
+  else if (t =? T_uint64)%Z then Some (u_u64 h)
+  else if (t =? T_string)%Z then Some (s_to_u64 (u_str H h))
+  else Some 0%Z.
+
+Definition m_to_str (H : heap) (h : handle) : bytes :=                            (* toString() const *)
+  let t := m_tag H h in
+  if (t =? T_string)%Z then u_str H h
+  else if (t =? T_bool)%Z then s_from_bool (u_bool h)
+  else if (t =? T_double)%Z then s_from_dbl (u_dbl h)
+  else if (t =? T_int)%Z then s_from_int (u_int h)
+  else if (t =? T_uint)%Z then s_from_int (u_uint h)
+  else if (t =? T_int64)%Z then s_from_int (u_i64 h)
+  else if (t =? T_uint64)%Z then s_from_int (u_u64 h)
+  else [].
+
+(* the payload of a container block: the HashMap / List / Array stored behind the descriptor *)
+Definition u_node (H : heap) (h : handle) : list bytes * list handle :=
+  match h with HB b => match lookup H b with Some (PNode _ ks hs) => (ks, hs) | _ => ([], []) end | HS _ => ([], []) end.
+
+(* Variant::operator==(const Variant& other) const, *this = a, other = b.  The tag of the LEFT operand
+   selects the case; in the scalar cases the left operand's member is compared with the RIGHT operand
+   converted by its to* accessor (so the right operand is the one that is converted); a string on the
+   left compares payloads with a string and otherwise hands over to `other == *this` (the operands
+   change sides - one more unit of fuel); containers are compared element by element
+   (HashMap/List/Array operator==, keys first for maps) through the handles.
+   None = a read through a handle to a released block, fuel exhausted, or an undefined cast. *)
 Fixpoint meq (fuel : nat) (H : heap) (a b : handle) {struct fuel} : option bool :=
   match fuel with
   | O => None
   | S f =>
-      match a with
-      | HS s => eq_scalar_lhs s (shallow H b)
-      | HB ba =>
-          match lookup H ba with
-          | None => None
-          | Some (PStr s) =>
-              match shallow H b with
-              | VStr s' => Some (bytes_eqb s s')
-              | VS sb => eq_scalar_lhs sb (VStr s)
-              | VNode _ _ _ => Some false
-              end
-          | Some (PNode k ks hs) =>
-              match b with
-              | HS _ => Some false
-              | HB bb =>
-                  match lookup H bb with
-                  | Some (PNode k' ks' hs') =>
-                      if kind_eqb k k' then
-                        if (length hs =? length hs')%nat then
-                          (fix go (ks ks' : list bytes) (l l' : list handle) {struct l} : option bool :=
-                             match l, l' with
-                             | x :: xs, y :: ys =>
-                                 let kd := match ks, ks' with k1 :: _, k2 :: _ => negb (bytes_eqb k1 k2) | _, _ => false end in
-                                 if kd then Some false else
-                                 match meq f H x y with
-                                 | Some true => go (tl ks) (tl ks') xs ys
-                                 | r => r
-                                 end
-                             | _, _ => Some true
-                             end) ks ks' hs hs'
-                        else Some false
-                      else Some false
-                  | Some (PStr _) => Some false
-                  | None => None
-                  end
-              end
-          end
-      end
+      let t := m_tag H a in
+      let cont_eq (_ : unit) :=
+        (* other.data->type == <same container type> && payload == payload *)
+        if (m_tag H b =? t)%Z then
+          let '(ks, hs) := u_node H a in
+          let '(ks', hs') := u_node H b in
+          if (length hs =? length hs')%nat then
+            (fix go (ks ks' : list bytes) (l l' : list handle) {struct l} : option bool :=
+               match l, l' with
+               | x :: xs, y :: ys =>
+                   let kd := match ks, ks' with k1 :: _, k2 :: _ => negb (bytes_eqb k1 k2) | _, _ => false end in
+                   if kd then Some false else
+                   match meq f H x y with
+                   | Some true => go (tl ks) (tl ks') xs ys
+                   | r => r
+                   end
+               | _, _ => Some true
+               end) ks ks' hs hs'
+          else Some false
+        else Some false in
+      if (t =? T_null)%Z then Some (m_is_null H b)
+      else if (t =? T_bool)%Z then Some (Bool.eqb (u_bool a) (m_to_bool H b))
+      else if (t =? T_double)%Z then Some (dbl_eqb (u_dbl a) (m_to_dbl H b))
+      else if (t =? T_int)%Z then option_map (Z.eqb (u_int a)) (m_to_int H b)
+      else if (t =? T_uint)%Z then option_map (Z.eqb (u_uint a)) (m_to_uint H b)
+      else if (t =? T_int64)%Z then option_map (Z.eqb (u_i64 a)) (m_to_i64 H b)
+      else if (t =? T_uint64)%Z then option_map (Z.eqb (u_u64 a)) (m_to_u64 H b)
+      else if (t =? T_map)%Z then cont_eq tt
+      else if (t =? T_list)%Z then cont_eq tt
+      else if (t =? T_array)%Z then cont_eq tt
+      else if (t =? T_string)%Z then
+        if (m_tag H b =? T_string)%Z then Some (bytes_eqb (u_str H a) (u_str H b))
+        else meq f H b a                                                       (* return other == *this; *)
+      else None
   end.
 
-Definition meq_top (H : heap) (a b : handle) : option bool := meq (S (hdepth H a)) H a b.
+(* enough fuel for the nesting below a: one unit per level, one more per level for a change of sides *)
+Definition meq_top (H : heap) (a b : handle) : option bool := meq (2 * hdepth H a + 2) H a b.
